@@ -41,7 +41,8 @@ def do_ctl(proc, c):
     if k == 'kill':
         return proc.kill(c[1])
     if k == 'resume':
-        return proc.resume(*c[1:])
+        import copy
+        return proc.resume(*copy.deepcopy(c[1:]))      # the process gets its own objects, never the harness's case data
     if k == 'fail':
         return proc.fail(UserError(c[1]), None)
     if k == 'raise':
@@ -139,6 +140,12 @@ class ScriptedMixin:
     async def _interp(self, name, args, kwargs):
         import portgen
         self._sc_trace.append(['step', name, portgen.encode(list(args)), portgen.encode(dict(kwargs)), self.paused])
+        # a step may use its own arguments as scratch space: whatever it does to them must stay invisible to any checkpoint taken before
+        for v in list(args) + list(kwargs.values()):
+            if isinstance(v, list):
+                v.append('scribbled-by-the-step')
+            elif isinstance(v, dict):
+                v['scribbled-by-the-step'] = True
         script = self._sc_cfg['prog'].get(name)
         if script is None:
             raise AttributeError(name)
